@@ -14,7 +14,8 @@ from harness.corpus import languages  # the enumerated languages are shared with
 
 NAME_POOL = ['nothing', 'note', 'order', 'android', 'inner', 'tor', 'asx', 'forall_x', 'existsx', 'PIN', 'Ex', 'E1', 'INFO',
              'NANO', 'Trueish', 'within1', 'nosy', 'untilx', 'iffy', 'insert', 'total', 'some1', 'causesx', 'globally_',
-             'afterwards', 'Falsehood', 'implies_', 'a1', '_x', 'tomorrow', 'inf', 'pi', 'no_', 'requires2', 'ms', 's', 'hz']
+             'afterwards', 'Falsehood', 'implies_', 'a1', '_x', 'tomorrow', 'inf', 'pi', 'no_', 'requires2', 'ms', 's', 'hz',
+             'abs', 'len', 'max', 'sum', 'str', 'NANOS', 'PITCH', 'INF_LOOP', 'PI2', 'E_STOP', 'ERROR', 'Exists', 'FORALL', 'Not', 'IN', 'TO']
 CHAN_POOL = ['/cmd_vel', 'nothing', 'ns/topic_1', '~private', 'after_x', 'orbit', 'some_topic', 'untilted', 'no_go', 'E', 'PI']
 NUM_POOL = ['0', '2', '10', '1.5', '0.5', '.5', '1e3', '3.25', '100', '1.0', '7', '2147483648', '9007199254740993',
             '18446744073709551615', '1700000000123456789', '0.1', '12.', '1E2', '123456789.25']
@@ -105,7 +106,7 @@ def run(replay=None):
             toks, exp = render.substitute(s, names=names, chans=chans, lits=lits)
             exp = grammar.fix_var_names(exp)
             texts = [render.layout(toks, 0), render.layout(toks, 1, rnd)]
-            if thorough:
+            if thorough or rnd.random() < 0.25:
                 texts.append(render.layout(toks, 2))
             variants = [(t, 'pkg') for t in texts] + [(texts[0], 'src')]
             for text, which in variants:
